@@ -270,24 +270,13 @@ func main() {
 			defer wg.Done()
 			sem <- struct{}{}
 			defer func() { <-sem }()
-			file := writeQuery(qdir, o.Func+"__"+o.Name, o.BuildQuery(false, false))
-			lite := writeQuery(qdir, o.Func+"__"+o.Name+".lite", o.BuildQuery(false, true))
 			expectSat := o.MustFail || o.Cover
 			tmo := to
 			if expectSat && tmo > 3 {
 				tmo = 3
 			}
-			best, all := solve(lite, file, tmo, *tier == "thorough" && !expectSat, expectSat)
-			if !*dump && best.Status != "sat-lite" {
-				os.Remove(lite)
-			}
-			if best.Status == "sat-lite" {
-				file = lite
-			}
+			best, all, file := solveOb(o, qdir, tmo, *tier == "thorough" && !expectSat, expectSat)
 			r := ObResult{Func: o.Func, Name: o.Name, Kind: o.Kind, Props: o.Props, Status: best.Status, Solver: best.Solver, Secs: best.Secs, Pos: o.Pos, MustFail: o.MustFail, Cover: o.Cover, File: file}
-			if best.Status == "sat-lite" {
-				r.File = lite
-			}
 			if *tier == "thorough" {
 				var ag []string
 				for _, x := range all {
@@ -296,9 +285,17 @@ func main() {
 				r.Agree = strings.Join(ag, ",")
 			}
 			good := (best.Status == "unsat" && !expectSat) || (expectSat && best.Status != "unsat")
-			if good && !*dump {
-				os.Remove(file)
-				r.File = ""
+			if !*dump {
+				base := o.Func + "__" + o.Name
+				for _, suf := range []string{"", ".ground", ".lite"} {
+					p := queryPath(qdir, base+suf)
+					if good || p != file {
+						os.Remove(p)
+					}
+				}
+				if good {
+					r.File = ""
+				}
 			}
 			results[i] = r
 		}(i, o)
